@@ -182,8 +182,34 @@ def run_check(chk, tier, seed, replay, t0):
                     reports.append((failing_kind(v), build, c, v, r))
                 else:
                     corr_ok += 1
+        # ---- confirmation: a report must reproduce --------------------------------------------------
+        # Every reported case is run a second time (few at a time, so that a loaded machine cannot turn a slow case into a
+        # watchdog hang); a report that does not reproduce is dropped and counted as flaky in a NOTE line of the output.
+        # (A change that breaks a property only sometimes is still found: the reports of a run are many and the
+        # neighbourhood search and the shrinker re-run cases anyway.)
+        flaky = 0
+        if reports and not replay:
+            confirmed = []
+            by_build = {}
+            for x in reports:
+                by_build.setdefault(x[1], []).append(x)
+            for b, xs in by_build.items():
+                # spec failures with a recorded signature are re-run too, but at most 400 reports per build
+                todo, rest = xs[:400], xs[400:]
+                again = [dict(x[2], id=i) for i, x in enumerate(todo)]
+                _, vv2 = run_cases(chk, sc, b, again, min(4, nworkers))
+                for i, x in enumerate(todo):
+                    v2 = vv2.get(i)
+                    if v2 is not None and not bad(v2):
+                        flaky += 1
+                    else:
+                        confirmed.append(x if v2 is None else (failing_kind(v2), x[1], x[2], v2, x[4]))
+                confirmed.extend(rest)
+            reports = confirmed
         # ---- verdict -------------------------------------------------------------------------
         out_lines = []
+        if flaky:
+            out_lines.append("NOTE: %d report(s) did not reproduce on a second run and were dropped (flaky under load)" % flaky)
         violations = 0
         budget = 40 if tier == "quick" else 300
         spec_fail = [x for x in reports if x[0].startswith("spec:")]
